@@ -24,7 +24,7 @@
 EXTENDS DiffContract, Json
 
 CONSTANTS MaxLen,      \* maximal list length / number of string tokens
-          Universe,    \* "lists" | "nested" | "objects" | "strings"
+          Universe,    \* "lists" | "lists3" (3 atoms, longer) | "nested" | "objects" | "strings"
           EMIT         \* print states as JSON
 
 VARIABLES a, d, r, phase
@@ -50,6 +50,7 @@ TokU == {<<97>>, <<98>>, <<10>>, <<13>>, <<11>>, <<133>>, <<8232>>}
 
 DocU ==
   CASE Universe = "lists"   -> {List(s) : s \in SeqsUpTo(AtomU, MaxLen)}
+    [] Universe = "lists3"  -> {List(s) : s \in SeqsUpTo({Int("1"), Flt("1.0"), Bool("true")}, MaxLen)}
     [] Universe = "nested"  -> {List(s) : s \in SeqsUpTo(ItemU, MaxLen)}
     [] Universe = "objects" -> {Obj(m) : m \in ObjU(AtomU \cup {List(<<Int("1")>>), Obj([k \in {"a"} |-> Int("1")])})}
     [] Universe = "strings" -> {Str(FlatSeq(s)) : s \in SeqsUpTo(TokU, MaxLen)}
